@@ -317,6 +317,42 @@ macro_rules! cmp_checks {
                                 what: format!("partial_cmp({a:e},{b:e}) differs from the float result"),
                             });
                         }
+                        // min / max for every pair (unordered ones included) and clamp for every triple
+                        // (crossed and NaN bounds included): the real part is what the float method gives
+                        {
+                            let fsame = |g: $f, w: $f| g.to_bits() == w.to_bits() || (g.is_nan() && w.is_nan()) || (g == 0.0 && w == 0.0);
+                            let mn = guarded(|| nalgebra::RealField::min(x.clone(), y.clone()).re);
+                            let mx = guarded(|| nalgebra::RealField::max(x.clone(), y.clone()).re);
+                            let (wmn, wmx) = (nalgebra::RealField::min(a, b), nalgebra::RealField::max(a, b));
+                            $st.evaluations += 2;
+                            if !matches!(mn, Ok(g) if fsame(g, wmn)) || !matches!(mx, Ok(g) if fsame(g, wmx)) {
+                                $st.violation(Violation {
+                                    sig: format!("select min/max {} real part", $name),
+                                    case: json!({"type": $name, "a": a as f64, "b": b as f64}),
+                                    what: format!("min/max of ({a:e}, {b:e}): real parts {mn:?} / {mx:?}, the float methods give {wmn:e} / {wmx:e}"),
+                                });
+                            }
+                            if va == 0 && vb == 0 {
+                                for (k, &c) in reals.iter().enumerate() {
+                                    let z = $mk(c, k + 11);
+                                    let cl = guarded(|| nalgebra::RealField::clamp(z.clone(), x.clone(), y.clone()).re);
+                                    let want = guarded(|| nalgebra::RealField::clamp(c, a, b));
+                                    $st.evaluations += 1;
+                                    let ok = match (&cl, &want) {
+                                        (Ok(g), Ok(w)) => fsame(*g, *w),
+                                        (Err(_), Err(_)) => true,
+                                        _ => false,
+                                    };
+                                    if !ok {
+                                        $st.violation(Violation {
+                                            sig: format!("select clamp {} real part", $name),
+                                            case: json!({"type": $name, "x": c as f64, "min": a as f64, "max": b as f64}),
+                                            what: format!("clamp({c:e}; {a:e}, {b:e}): {cl:?}, the float method gives {want:?}"),
+                                        });
+                                    }
+                                }
+                            }
+                        }
                         // RealField selection: min / max / clamp return the selected operand with its own parts
                         if !a.is_nan() && !b.is_nan() {
                             let mn = nalgebra::RealField::min(x.clone(), y.clone());
